@@ -892,6 +892,42 @@ def rule_text_sync(prog):
                 c.loc(bad["sp"]) if bad else c.loc(b["sp"]),
                 "a range bound is derived from a text/length captured before the batch was processed: stale as soon as an earlier "
                 "change of the same notification changed the length", ("batch",))
+    # no byte distance is computed from terminator-stripped lines (`str::lines()` drops `\n` *or* `\r\n`)
+    for fn in ("as_position", "get_insertion_index", "as_pos_range", "as_index_range"):
+        fb = cv.get(fn)
+        if fb is None:
+            continue
+        item_ids = set()
+        ns = list(hir.nodes_deep(prog, fb["body"], 1, crate=c))
+        for n in ns:
+            # closures applied to an iterator chain that starts at lines()/split(..)
+            if n.get("k") == "MethodCall":
+                chain = [x for x in hir.nodes(n["recv"], "MethodCall") if x["m"] in ("lines", "split", "split_terminator", "rsplit", "splitn")]
+                if chain or n["m"] in ("lines",):
+                    for a in n["args"]:
+                        a = hir.strip(a)
+                        if a.get("k") == "Closure":
+                            for pp in a["params"]:
+                                for bd in hir.pat_bindings(pp):
+                                    item_ids.add(bd["id"])
+            if n.get("k") == "ForLoop" and any(x["m"] in ("lines", "split", "split_terminator") for x in hir.nodes(n["iter"], "MethodCall")):
+                for bd in hir.pat_bindings(n["pat"]):
+                    item_ids.add(bd["id"])
+        bad = None
+        for n in ns:
+            if n.get("k") == "MethodCall" and n["m"] == "len":
+                pl = hir.path_local(hir.strip_ref(n["recv"]))
+                if pl and pl["id"] in item_ids:
+                    bad = n
+        out.add("document::" + fn, "byte offsets are not computed from terminator-stripped lines", bad is None,
+                c.loc((bad or fb)["sp"]), "`line.len()` of a line produced by `lines()`/`split` is added up as a byte distance: the "
+                "terminator (`\n` or `\r\n`) is not part of the line, so offsets are wrong in documents with CRLF or mixed line endings",
+                ("lines",))
+    # the order of a batch is the order of application
+    reord = [n for n in hir.nodes(b["body"], "MethodCall") if n["m"] in ("rev", "reverse", "sort", "sort_by", "sort_by_key", "sort_unstable",
+                                                                          "sort_unstable_by", "sort_unstable_by_key", "sort_by_cached_key")]
+    out.add("document::to_text_changes", "content changes are converted in the order they were sent", not reord,
+            c.loc((reord[0] if reord else b)["sp"]), "each change of a batch is relative to the text after its predecessors", ("batch",))
     # UTF16: column counters in as_position / get_insertion_index (and private helpers they share)
     for fn in ("as_position", "get_insertion_index"):
         fb = cv.get(fn)
